@@ -602,7 +602,7 @@ pub fn run(ctx: &Ctx) {
                     clock.insert(v, p.at);
                 }
             }
-            let cfg = PoolCfg { workers: *workers as usize, queue: frames.len() + 8, batch: 8, timeout_ms: 3, dispatchers: 1, perturb: None, max_sleep_us: 0 };
+            let cfg = PoolCfg { workers: *workers as usize, queue: frames.len() + 8, batch: 8, timeout_ms: 3, dispatchers: 1, perturb: None, max_sleep_us: 0, max_conn: 1000 };
             let run = match catch(|| run_pool(kind, &frames, &cfg, None, Some(clock))) {
                 Ok(Ok(r)) => r,
                 Ok(Err(e)) => return Err(fail!("pool:new", "{e}")),
@@ -656,6 +656,7 @@ pub fn replay(_ctx: &Ctx, sub: &str, input: &serde_json::Value) -> Result<(), Fa
     }
     match sub {
         "havoc-histories-then-probe" => check_history(&serde_json::from_value(input["value"].clone()).map_err(|e| fail!("bad-replay", "{e}"))?, &mut st),
+        "http-heads-from-hostile-tokens" => check_hostile(&serde_json::from_value(input["value"].clone()).map_err(|e| fail!("bad-replay", "{e}"))?, &mut st),
         "tls-hello-after-complete-records-same-connection" => check_same_flow(&serde_json::from_value(input["value"].clone()).map_err(|e| fail!("bad-replay", "{e}"))?, &mut st),
         "stream-histories-then-probe" => stream_probe(&serde_json::from_value::<Vec<Vec<u8>>>(input["value"].clone()).map_err(|e| fail!("bad-replay", "{e}"))?),
         _ => Err(fail!("bad-replay", "sub {sub}: re-run the check with the same VERIF_SEED (the failing input is printed in the detail)")),
@@ -785,6 +786,97 @@ pub fn run_same_flow(ctx: &Ctx) {
         |c: &SameFlowCase, st: &mut Stats| {
             st.sample(|| json!({"earlier_kinds": c.earlier.iter().map(|e| e.0 % 4).collect::<Vec<_>>(), "v4": c.v4}));
             check_same_flow(c, st)
+        },
+    );
+}
+
+// ------------------------------------------------------------------------------------------------
+// HTTP heads assembled from a token dictionary with hostile numerics / separators in every parsed position
+// ------------------------------------------------------------------------------------------------
+#[derive(Clone, Debug, serde::Serialize, serde::Deserialize, Hash)]
+pub struct HostileHead {
+    pub request: bool,
+    pub h2: bool,
+    pub start: (u8, u8, u8),
+    /// (header selector, value tokens)
+    pub headers: Vec<(u8, Vec<(u8, u8, u8)>)>,
+    pub eol: u8,
+    pub cuts: Vec<u16>,
+}
+
+const HH_METHODS: [&str; 8] = ["GET", "POST", "HEAD", "OPTIONS", "get", "G", "", "PROPFIND"];
+const HH_TARGETS: [&str; 6] = ["/", "*", "/a?b=c&d", "http://h.test/p", "", "/\u{e9}"];
+const HH_VERSIONS: [&str; 10] = ["HTTP/1.1", "HTTP/1.0", "HTTP/2.0", "HTTP/1.10", "HTTP/", "HTTP/1.", "http/1.1", "HTTP/99999999999999999999.1", "HTTP/1.1 ", "HTTP/1.x"];
+const HH_STATUS: [&str; 9] = ["200", "099", "1000", "-1", "2e2", "", "99999999999999999999", "NaN", " 200"];
+const HH_NAMES: [&str; 12] = ["Accept-Language", "accept-language", "Cookie", "Content-Length", "Host", "User-Agent", "Server", "Accept", "Referer", "Date", "Connection", "Accept-Encoding"];
+const HH_LANGS: [&str; 10] = ["en", "en-US", "fr", "de-CH", "*", "", "zz", "fil", "EN", "e n"];
+const HH_NUMS: [&str; 24] = ["0.5", "1", "0", "1.000", "nan", "NaN", "-nan", "inf", "-inf", "infinity", "1e39", "1e-50", "-1", "+0.5", "0x1p3", "", ".", "1.", ".5", "000000000.5", "0.123456789012345678901234567890", "\u{ff11}", "q", "18446744073709551616"];
+const HH_SEPS: [&str; 8] = [",", ", ", ";", " ; ", ";q=", "; q =", "=", ";;"];
+
+fn hostile_value(toks: &[(u8, u8, u8)]) -> String {
+    let mut v = String::new();
+    for (a, b, c) in toks {
+        v.push_str(HH_LANGS[*a as usize % HH_LANGS.len()]);
+        v.push_str(HH_SEPS[*b as usize % HH_SEPS.len()]);
+        v.push_str(HH_NUMS[*c as usize % HH_NUMS.len()]);
+        v.push_str(if b % 3 == 0 { "," } else { ", " });
+    }
+    v
+}
+
+pub fn hostile_bytes(c: &HostileHead) -> Vec<u8> {
+    let hdrs: Vec<(String, String)> = c.headers.iter().map(|(n, t)| (HH_NAMES[*n as usize % HH_NAMES.len()].to_string(), hostile_value(t))).collect();
+    if c.h2 {
+        let f = |n: &str, v: &str| h2::Field { name: n.to_ascii_lowercase(), value: v.as_bytes().to_vec(), repr: h2::Repr::LiteralNotIndexed, name_indexed: false, huffman_name: false, huffman_value: false };
+        let mut fields = if c.request { vec![f(":method", HH_METHODS[c.start.0 as usize % 8]), f(":path", HH_TARGETS[c.start.1 as usize % 6]), f(":scheme", "https"), f(":authority", "h.test")] } else { vec![f(":status", HH_STATUS[c.start.2 as usize % 9])] };
+        fields.extend(hdrs.iter().map(|(n, v)| f(n, v)));
+        return crate::props::c16::H2Case { request: c.request, block: h2::Block { size_updates: vec![], fields }, framing: h2::HeadersFraming { stream: 1, end_stream: true, pad: None, priority: None, splits: vec![], reserved_bit: false }, pre: vec![], body: None, hostile_tail: vec![] }.bytes();
+    }
+    let eol = ["\r\n", "\n", "\r\n ", "\r"][c.eol as usize % 4];
+    let mut s = if c.request { format!("{} {} {}{eol}", HH_METHODS[c.start.0 as usize % 8], HH_TARGETS[c.start.1 as usize % 6], HH_VERSIONS[c.start.2 as usize % 10]) } else { format!("{} {} OK{eol}", HH_VERSIONS[c.start.0 as usize % 10], HH_STATUS[c.start.2 as usize % 9]) };
+    for (n, v) in &hdrs {
+        s.push_str(&format!("{n}: {v}{eol}"));
+    }
+    s.push_str(eol);
+    s.into_bytes()
+}
+
+pub fn check_hostile(c: &HostileHead, st: &mut Stats) -> Result<(), Fail> {
+    let data = hostile_bytes(c);
+    let cuts = crate::props::c08::cut_positions(&c.cuts, data.len());
+    if c.headers.iter().any(|(n, t)| HH_NAMES[*n as usize % HH_NAMES.len()].eq_ignore_ascii_case("accept-language") && t.len() >= 2) {
+        st.nontrivial(c);
+        st.class("accept-language-with->=2-members");
+    }
+    st.class(if c.h2 { "http2" } else { "http1" });
+    stream_entry_points(&data, &cuts).map_err(|e| Fail::new(panic_key(&e), format!("{e} | input {}", truncate(&String::from_utf8_lossy(&data), 400))))?;
+    // packet level: SYN, then the head as one data segment of the right direction, through the HTTP and the unified analyzer
+    catch(|| {
+        let cip = Ip::V4(Ip4 { src: [10, 1, 1, 1], dst: [10, 1, 1, 2], ..Ip4::default() });
+        let sip = Ip::V4(Ip4 { src: [10, 1, 1, 2], dst: [10, 1, 1, 1], ..Ip4::default() });
+        let syn = frame(Link::Ether, &cip, &Tcp { sport: 40001, dport: 80, seq: 10, flags: fr::SYN, ..Tcp::default() });
+        let dat = if c.request { frame(Link::Ether, &cip, &Tcp { sport: 40001, dport: 80, seq: 11, ack: 1, flags: fr::ACK | fr::PSH, payload: data.clone(), ..Tcp::default() }) } else { frame(Link::Ether, &sip, &Tcp { sport: 80, dport: 40001, seq: 500, ack: 11, flags: fr::ACK | fr::PSH, payload: data.clone(), ..Tcp::default() }) };
+        let mut hs = drive::HttpState::new(8);
+        let _ = hs.feed(&syn, true);
+        let _ = hs.feed(&dat, true);
+        let mut u = huginn_net::HuginnNet::new(Some(drive::default_db()), 8, None).expect("unified");
+        let _ = u.analyze_tcp(&syn);
+        let _ = u.analyze_tcp(&dat);
+    })
+    .map_err(|e| Fail::new(panic_key(&e), format!("{e} | input {}", truncate(&String::from_utf8_lossy(&data), 400))))?;
+    stream_probe(&[data])
+}
+
+pub fn run_hostile_heads(ctx: &Ctx) {
+    let n = ctx.tier.pick(60_000, 1_500_000);
+    ctx.run_prop(
+        "http-heads-from-hostile-tokens",
+        "HTTP/1.x request / response heads and HTTP/2 header lists assembled from a token dictionary: start lines with odd methods, targets, versions and status codes; 0..6 headers (Accept-Language, Cookie, Content-Length, Host ...) whose values are 0..5 members of language tag x separator x numeric token (nan, inf, 1e39, -1, +0.5, empty, `.`, 30-digit fractions, full-width digits, 2^64 ...); line ends CRLF / LF / folded / CR; through every stream entry point in generated chunks, the packet-level HTTP and unified analyzers, then the stream probe; non-trivial: an Accept-Language header with >= 2 members",
+        n,
+        || (any::<bool>(), proptest::bool::weighted(0.3), (any::<u8>(), any::<u8>(), any::<u8>()), proptest::collection::vec((prop_oneof![3 => 0u8..2, 2 => any::<u8>()], proptest::collection::vec((any::<u8>(), any::<u8>(), any::<u8>()), 0..6)), 0..7), any::<u8>(), proptest::collection::vec(any::<u16>(), 0..3)).prop_map(|(request, h2, start, headers, eol, cuts)| HostileHead { request, h2, start, headers, eol, cuts }),
+        |c: &HostileHead, st: &mut Stats| {
+            st.sample(|| json!({"h2": c.h2, "request": c.request, "head": truncate(&String::from_utf8_lossy(&hostile_bytes(c)), 200)}));
+            check_hostile(c, st)
         },
     );
 }
